@@ -359,3 +359,23 @@ func extraSet(m protoreflect.Message, known ...string) bool {
 
 var _ = vh.Hex
 var _ = protodesc.ToFieldDescriptorProto
+
+var optPresMeasured *bool
+
+// optPresFact compiles `field p ? string` once and reports whether the linked field has presence.
+// The model takes this fact as a parameter (its theorems hold for both values).
+func optPresFact() bool {
+	if optPresMeasured != nil {
+		return *optPresMeasured
+	}
+	res := false
+	if f, err := compileJ5s("package foo.v1\n\nobject Foo {\n  field z ! string\n  field p ? string\n}\n"); err == nil {
+		if md := f.Messages().ByName("Foo"); md != nil {
+			if fd := md.Fields().ByName("p"); fd != nil {
+				res = fd.HasPresence()
+			}
+		}
+	}
+	optPresMeasured = &res
+	return res
+}
